@@ -9,6 +9,7 @@ Section Proofs.
   Variable hash : src -> N.
   Variable inject : src -> out.
   Variable clone_out : out -> out.
+  Variable cache_ok : out -> bool.
   Variable is_value : out -> bool.
   Variable is_compiled : out -> bool.
   Variables (e_value_as_input e_missing e_not_compiled : err).
@@ -16,14 +17,14 @@ Section Proofs.
   Notation stage := (stage out err st).
   Notation pstage := (pstage out err).
   Notation lift := (lift out err st).
-  Notation walk := (walk out err st clone_out is_value is_compiled e_value_as_input e_missing e_not_compiled).
+  Notation walk := (walk out err st clone_out cache_ok is_value is_compiled e_value_as_input e_missing e_not_compiled).
   Notation walk_spec := (walk_spec out err st is_value is_compiled e_value_as_input e_missing e_not_compiled).
   Notation finish := (finish out err is_compiled e_missing e_not_compiled).
   Notation on_value := (on_value out err e_value_as_input).
-  Notation serve := (serve src out err st hash inject clone_out is_value is_compiled e_value_as_input e_missing e_not_compiled).
-  Notation exec_cached_from := (exec_cached_from src out err st hash inject clone_out is_value is_compiled e_value_as_input e_missing e_not_compiled).
-  Notation exec_cached := (exec_cached src out err st hash inject clone_out is_value is_compiled e_value_as_input e_missing e_not_compiled).
-  Notation exec_fresh := (exec_fresh src out err st hash inject clone_out is_value is_compiled e_value_as_input e_missing e_not_compiled).
+  Notation serve := (serve src out err st hash inject clone_out cache_ok is_value is_compiled e_value_as_input e_missing e_not_compiled).
+  Notation exec_cached_from := (exec_cached_from src out err st hash inject clone_out cache_ok is_value is_compiled e_value_as_input e_missing e_not_compiled).
+  Notation exec_cached := (exec_cached src out err st hash inject clone_out cache_ok is_value is_compiled e_value_as_input e_missing e_not_compiled).
+  Notation exec_fresh := (exec_fresh src out err st hash inject clone_out cache_ok is_value is_compiled e_value_as_input e_missing e_not_compiled).
   Notation exec_uncached := (exec_uncached src out err st inject is_value is_compiled e_value_as_input e_missing e_not_compiled).
   Notation lookup := (lookup out).
 
@@ -46,7 +47,7 @@ Section Proofs.
     - reflexivity.
     - destruct (cm && (s_name _ _ _ t =? "vm")); [reflexivity|].
       rewrite Ht. destruct (s_run _ _ _ t s cur) as [s' [o|e]]; [|reflexivity].
-      destruct (is_value o); [reflexivity|]. apply IH.
+      cbn [andb]. destruct (is_value o); [reflexivity|]. apply IH.
   Qed.
 
   (* -------------------------------------------------------------------------------------- *)
@@ -89,7 +90,8 @@ Section Proofs.
 
   Variable X : list src.
   Hypothesis hash_inj : forall x y, In x X -> In y X -> hash x = hash y -> x = y.
-  Hypothesis clone_faithful : forall o, clone_out o = o.
+  (* the copy is faithful on everything that is ever put into the cache *)
+  Hypothesis clone_faithful : forall o, cache_ok o = true -> clone_out o = o.
   Variable ps : list pstage.
   Hypothesis names_distinct : NoDup (map (p_name _ _) ps).
 
@@ -99,7 +101,7 @@ Section Proofs.
     forall nm h o, lookup c (nm, h) = Some o ->
       exists x pre p post i,
         In x X /\ hash x = h /\ ps = pre ++ p :: post /\ p_name _ _ p = nm /\
-        pure_chain pre (inject x) = Some i /\ p_fun _ _ p i = SOk o.
+        pure_chain pre (inject x) = Some i /\ p_fun _ _ p i = SOk o /\ cache_ok o = true.
 
   Lemma cache_sound_nil : cache_sound [].
   Proof. intros nm h o H; discriminate H. Qed.
@@ -130,25 +132,29 @@ Section Proofs.
       destruct (p_cacheable _ _ p) eqn:Hcach.
       + destruct (lookup c (p_name _ _ p, hash x)) as [cached|] eqn:Hlk.
         * (* hit: the entry is what the stage would compute *)
-          destruct (Hc _ _ _ Hlk) as (x' & pre' & p' & post' & i' & Hx' & Hh & Eps' & Hnm & Hch' & Hf').
+          destruct (Hc _ _ _ Hlk) as (x' & pre' & p' & post' & i' & Hx' & Hh & Eps' & Hnm & Hch' & Hf' & Hok).
           assert (x' = x) by (apply hash_inj; assumption). subst x'.
           destruct (nodup_split_unique (p_name _ _) ps names_distinct pre' p' post' pre p rest Eps' Eps Hnm)
             as (-> & -> & ->).
           rewrite Hchain in Hch'. inversion Hch'; subst i'.
-          rewrite clone_faithful, Hf'.
+          rewrite (clone_faithful _ Hok), Hf'.
           destruct (is_value cached) eqn:Hv; [exists c; split; [reflexivity|exact Hc]|].
           apply (IH _ Enext c s cached Hc (Hstep _ Hf' Hv)).
         * (* miss *)
           destruct (p_fun _ _ p cur) as [o|e] eqn:Hf; [|exists c; split; [reflexivity|exact Hc]].
-          rewrite clone_faithful.
-          assert (Hc' : cache_sound (((p_name _ _ p, hash x), o) :: c)).
-          { intros nm h o' Hl. cbn [PipelineCache.lookup] in Hl.
-            destruct (key_eqb (p_name _ _ p, hash x) (nm, h)) eqn:Hk.
-            - apply key_eqb_eq in Hk. inversion Hk; subst nm h. inversion Hl; subst o'.
-              exists x, pre, p, rest, cur. repeat split; auto.
-            - apply Hc; exact Hl. }
-          destruct (is_value o) eqn:Hv; [eexists; split; [reflexivity|exact Hc']|].
-          apply (IH _ Enext _ s o Hc' (Hstep _ eq_refl Hv)).
+          cbn [andb].
+          destruct (cache_ok o) eqn:Hok.
+          -- rewrite (clone_faithful _ Hok).
+             assert (Hc' : cache_sound (((p_name _ _ p, hash x), o) :: c)).
+             { intros nm h o' Hl. cbn [PipelineCache.lookup] in Hl.
+               destruct (key_eqb (p_name _ _ p, hash x) (nm, h)) eqn:Hk.
+               - apply key_eqb_eq in Hk. inversion Hk; subst nm h. inversion Hl; subst o'.
+                 exists x, pre, p, rest, cur. repeat split; auto.
+               - apply Hc; exact Hl. }
+             destruct (is_value o) eqn:Hv; [eexists; split; [reflexivity|exact Hc']|].
+             apply (IH _ Enext _ s o Hc' (Hstep _ eq_refl Hv)).
+          -- destruct (is_value o) eqn:Hv; [exists c; split; [reflexivity|exact Hc]|].
+             apply (IH _ Enext c s o Hc (Hstep _ eq_refl Hv)).
       + destruct (p_fun _ _ p cur) as [o|e] eqn:Hf; [|exists c; split; [reflexivity|exact Hc]].
         destruct (is_value o) eqn:Hv; [exists c; split; [reflexivity|exact Hc]|].
         apply (IH _ Enext c s o Hc (Hstep _ eq_refl Hv)).
@@ -238,33 +244,43 @@ Section Proofs.
 End Proofs.
 
 (* ------------------------------------------------------------------------------------------ *)
-(* the code's clone drops the heap: the concrete instance *)
+(* the concrete instance: the clone the code makes *)
 
 Lemma clone_code_not_faithful : exists o, clone_code o <> o.
 Proof. exists {| o_shape := ShCompiled; o_sid := 0; o_payload := 0; o_heap := 1 |}. discriminate. Qed.
 
+(* ... but it is faithful on everything the cache accepts (a Compiled output is never cached) *)
+Lemma clone_code_faithful_on_cached (o : cout) : c_cache_ok o = true -> clone_code o = o.
+Proof. destruct o as [sh sid p h]; destruct sh; cbn; intro H; try reflexivity; discriminate H. Qed.
+
 Definition mini_stages := syn_stages mini_pipeline.
 Definition mini_s0 : cst := {| runs := []; log := [] |}.
-Definition mini_cached := exec_cached N cout cerr cst (fun x => x) c_inject clone_code c_is_value c_is_compiled
+Definition mini_cached := exec_cached N cout cerr cst (fun x => x) c_inject clone_code c_cache_ok c_is_value c_is_compiled
                                       EValueAsInput EMissing ENotCompiled mini_stages mini_s0.
-Definition mini_fresh := exec_fresh N cout cerr cst (fun x => x) c_inject clone_code c_is_value c_is_compiled
+Definition mini_fresh := exec_fresh N cout cerr cst (fun x => x) c_inject clone_code c_cache_ok c_is_value c_is_compiled
                                     EValueAsInput EMissing ENotCompiled mini_stages mini_s0.
+(* the protocol as it was before the repair of KF-C16-1: every output of a cacheable stage was cached *)
+Definition mini_cached_before_fix := exec_cached N cout cerr cst (fun x => x) c_inject clone_code (fun _ => true) c_is_value c_is_compiled
+                                      EValueAsInput EMissing ENotCompiled mini_stages mini_s0.
 
 Definition res_payload (r : result cout cerr) : option N :=
   match r with RValue o => Some (o_payload o) | RUnit o => Some (o_heap o) | RErr _ => None end.
 
-(* executing the same source twice: the second result differs from a fresh pipeline's *)
-Lemma cache_drops_heap_exec :
-  map res_payload (mini_cached [RqExec 0%N; RqExec 0%N]) <> map res_payload (mini_fresh [RqExec 0%N; RqExec 0%N]).
-Proof. vm_compute. discriminate. Qed.
+(* regression of the old witnesses: executing / compiling the same source repeatedly *)
+Lemma cache_keeps_heap_exec :
+  map res_payload (mini_cached [RqExec 0%N; RqExec 0%N; RqExec 0%N]) = map res_payload (mini_fresh [RqExec 0%N; RqExec 0%N; RqExec 0%N]).
+Proof. vm_compute. reflexivity. Qed.
 
-(* compiling it twice: the second unit owns no heap objects *)
-Lemma cache_drops_heap_compile :
-  map res_payload (mini_cached [RqCompile 0%N; RqCompile 0%N]) = [Some 2%N; Some 0%N] /\
-  map res_payload (mini_fresh [RqCompile 0%N; RqCompile 0%N]) = [Some 2%N; Some 2%N].
-Proof. vm_compute. split; reflexivity. Qed.
+Lemma cache_keeps_heap_compile :
+  map res_payload (mini_cached [RqCompile 0%N; RqCompile 0%N]) = [Some 2%N; Some 2%N].
+Proof. vm_compute. reflexivity. Qed.
 
-(* ------------------------------------------------------------------------------------------ *)
+(* OLD DEFINITION ONLY (the protocol before the repair): the second result differed *)
+Lemma old_protocol_dropped_heap :
+  map res_payload (mini_cached_before_fix [RqExec 0%N; RqExec 0%N]) <> map res_payload (mini_fresh [RqExec 0%N; RqExec 0%N]) /\
+  map res_payload (mini_cached_before_fix [RqCompile 0%N; RqCompile 0%N]) = [Some 2%N; Some 0%N].
+Proof. vm_compute. split; [discriminate|reflexivity]. Qed.
+
 (* a concrete instance of every hypothesis of the transparency theorem (faithful clone):
    lexer and compiler are pure, the vm stage counts its runs but its result ignores the
    count; the instance is the synthetic pipeline above with `clone_out := id` *)
@@ -281,17 +297,17 @@ Definition nv_stages := map (lift cout cerr cst) nv_ps ++ [nv_vm].
 Definition nv_hist : list (request N) := [RqExec 0%N; RqExec 1%N; RqExec 0%N; RqCompile 0%N; RqExec 0%N].
 
 Lemma nonvacuous_instance :
-  (forall o : cout, (fun o => o) o = o) /\
+  (forall o : cout, (fun _ : cout => true) o = true -> (fun o => o) o = o) /\
   NoDup (map (p_name cout cerr) nv_ps) /\
   Forall (fun t => s_cacheable _ _ _ t = false) [nv_vm] /\
   Forall (state_blind cout cerr cst) [nv_vm] /\
   (forall x y : N, In x [0%N; 1%N] -> In y [0%N; 1%N] -> (fun x => x) x = (fun x => x) y -> x = y) /\
   Forall (fun r => In (req_src r) [0%N; 1%N]) nv_hist /\
-  map res_payload (exec_cached N cout cerr cst (fun x => x) c_inject (fun o => o) c_is_value c_is_compiled
+  map res_payload (exec_cached N cout cerr cst (fun x => x) c_inject clone_code c_cache_ok c_is_value c_is_compiled
                      EValueAsInput EMissing ENotCompiled nv_stages mini_s0 nv_hist)
     = [Some 207%N; Some 208%N; Some 207%N; Some 2%N; Some 207%N].
 Proof.
-  split; [reflexivity|]. split.
+  split; [intros o _; reflexivity|]. split.
   { cbn [map nv_ps p_name]. apply NoDup_cons; [cbn; intros [H|[]]; discriminate H|].
     apply NoDup_cons; [intros []|apply NoDup_nil]. }
   split; [apply Forall_cons; [reflexivity|apply Forall_nil]|]. split.
